@@ -1,7 +1,7 @@
 """MiniGo programs (model M6) as Python data: printer to Go source (with the guard/receiver/switch spellings chosen
 by a PRNG), printer to the token line read by `modelrun minigo`, and the random generators of the progfuzz suite.
 
-Statements:  ('skip',) ('seq', s1, s2) ('assign', var, atom) ('call', var|None, f, [atoms]) ('deref', id, var)
+Statements:  ('skip',) ('seq', s1, s2) ('assign', var, atom) ('call', var|None, f, [atoms], cs) ('deref', id, var)
              ('if', cond, s1, s2) ('while', cond, s) ('return', atom)
 Vars:        ('L', n) | ('G', n)          Atoms: 'nil' | 'new' | var
 Conds:       ('opaque',) ('nonnil', var) ('cderef', id, var) ('not', c) ('and', c1, c2) ('or', c1, c2)
@@ -50,7 +50,7 @@ def stmt_tok(s):
     if k == "assign":
         return "a %s %s" % (var_tok(s[1]), atom_tok(s[2]))
     if k == "call":
-        return "c %s %d %d %s" % ("-" if s[1] is None else var_tok(s[1]), s[2], len(s[3]), " ".join(atom_tok(a) for a in s[3]))
+        return "c %d %s %d %d %s" % (s[4], "-" if s[1] is None else var_tok(s[1]), s[2], len(s[3]), " ".join(atom_tok(a) for a in s[3]))
     if k == "deref":
         return "d %d %s" % (s[1], var_tok(s[2]))
     if k == "if":
@@ -74,11 +74,11 @@ def expand(p):
                 if isinstance(a, tuple) and a[0] == "nest":
                     ctr[0] += 1
                     tmp = ("L", 90 + ctr[0])
-                    pre.append(("call", tmp, a[1], list(a[2])))
+                    pre.append(("call", tmp, a[1], list(a[2]), a[3]))
                     args.append(tmp)
                 else:
                     args.append(a)
-            return seq(pre + [("call", s[1], s[2], args)])
+            return seq(pre + [("call", s[1], s[2], args, s[4])])
         if k == "if":
             return ("if", s[1], go(s[2], ctr), go(s[3], ctr))
         if k == "while":
@@ -91,11 +91,11 @@ def expand(p):
     return q
 
 
-def prog_line(p):
+def prog_line(p, ctr=()):
     p = expand(p)
     out = ["P", str(len(p["ginit"]))] + ["1" if b else "0" for b in p["ginit"]] + [str(len(p["funcs"]))]
-    for fd in p["funcs"]:
-        out += ["F", str(fd["nparams"]), stmt_tok(fd["body"])]
+    for f, fd in enumerate(p["funcs"]):
+        out += ["F", str(fd["nparams"]), str(fd["pkg"]), "1" if f in ctr else "0", stmt_tok(fd["body"])]
     return " ".join(" ".join(out).split())
 
 
@@ -210,6 +210,7 @@ class Printer:
     def __init__(self, p, name, style=None):
         self.p, self.name, self.style = p, name, style
         self.pos = {}  # deref id -> (relative file, line, col)
+        self.cpos = {}  # call site id -> (relative file, line, col of the call expression, col of its first argument)
 
     def pick(self, n):
         return self.style.randrange(n) if self.style is not None else 0
@@ -230,26 +231,50 @@ class Printer:
         return ("G%d" % v[1]) if gk == k else "%s.G%d" % (self.pkgname(gk), v[1])
 
     def atom(self, a, k):
+        """-> (text, [(cs, offset of the call expression, offset of its first argument)])"""
         if a == "nil":
-            return "nil"
+            return "nil", []
         if isinstance(a, tuple) and a[0] == "nest":
-            return self.callexpr(a[1], a[2], k)
+            return self.callexpr(a[1], a[2], k, a[3])
         if a == "new":
-            return ["&%s{}", "new(%s)"][self.pick(2)] % self.T(k)
-        return self.var(a, k)
+            return ["&%s{}", "new(%s)"][self.pick(2)] % self.T(k), []
+        return self.var(a, k), []
 
     def T(self, k):
         return "T" if k == 0 else self.pkgname(0) + ".T"
 
-    def callexpr(self, f, args, k):
+    def callexpr(self, f, args, k, cs):
         fd = self.p["funcs"][f]
-        q = "" if fd["pkg"] == k else self.pkgname(fd["pkg"]) + "."
+        sites = []
         if fd.get("method"):
             # receiver = first argument; a nil literal receiver needs a typed conversion
             r = args[0]
-            rs = ("(*%s)(nil)" % self.T(k)) if r == "nil" else (("(&%s{})" % self.T(k)) if r == "new" else self.atom(r, k))
-            return "%s.%s(%s)" % (rs, self.fname(f), ", ".join(self.atom(a, k) for a in args[1:]))
-        return "%s%s(%s)" % (q, self.fname(f), ", ".join(self.atom(a, k) for a in args))
+            if r == "nil":
+                head = "(*%s)(nil)" % self.T(k)
+            elif r == "new":
+                head = "(&%s{})" % self.T(k)
+            else:
+                head, rs = self.atom(r, k)
+                sites += rs
+            head += ".%s(" % self.fname(f)
+            rest = args[1:]
+        else:
+            q = "" if fd["pkg"] == k else self.pkgname(fd["pkg"]) + "."
+            head = "%s%s(" % (q, self.fname(f))
+            rest = args
+        text = head
+        arg0 = None
+        for i, a in enumerate(rest):
+            if i:
+                text += ", "
+            if arg0 is None:
+                arg0 = len(text)
+            t, ss = self.atom(a, k)
+            sites += [(c, oc + len(text), oa + len(text), ff) for c, oc, oa, ff in ss]
+            text += t
+        text += ")"
+        sites.append((cs, 0, arg0 if arg0 is not None else 0, f))
+        return text, sites
 
     # conditions: returns text; records deref columns relative to the start of the returned text
     def cond(self, c, k, neg=False):
@@ -290,11 +315,13 @@ class Printer:
             return a + " " + op + " " + b, da + [(d, o + len(a) + len(op) + 2) for d, o in db]
         raise ValueError(c)
 
-    def emit(self, text, derefs=()):
+    def emit(self, text, derefs=(), calls=()):
         self.lines.append(text)
         ln = len(self.lines)
         for d, col in derefs:
             self.pos[d] = (self.curfile, ln, col + 1)
+        for cs, oc, oa, ff in calls:
+            self.cpos[cs] = (self.curfile, ln, oc + 1, oa + 1, ff)
 
     def stmt(self, s, k, ind):
         t = "\t" * ind
@@ -304,13 +331,15 @@ class Printer:
         if kind == "seq":
             self.stmt(s[1], k, ind); self.stmt(s[2], k, ind)
         elif kind == "assign":
-            self.emit("%s%s = %s" % (t, self.var(s[1], k), self.atom(s[2], k)))
+            self.emit("%s%s = %s" % (t, self.var(s[1], k), self.atom(s[2], k)[0]))
         elif kind == "call":
             lhs = "_" if s[1] is None else self.var(s[1], k)
+            ct, sites = self.callexpr(s[2], s[3], k, s[4])
             if s[1] is None and self.pick(2) == 1:
-                self.emit("%s%s" % (t, self.callexpr(s[2], s[3], k)))
+                pre = t
             else:
-                self.emit("%s%s = %s" % (t, lhs, self.callexpr(s[2], s[3], k)))
+                pre = "%s%s = " % (t, lhs)
+            self.emit(pre + ct, calls=[(c, oc + len(pre), oa + len(pre), ff) for c, oc, oa, ff in sites])
         elif kind == "deref":
             x = self.var(s[2], k)
             pre = "%srt.Use(" % t
@@ -324,7 +353,7 @@ class Printer:
             self.stmt(s[2], k, ind + 1)
             self.emit(t + "}")
         elif kind == "return":
-            self.emit("%sreturn %s" % (t, self.atom(s[1], k)))
+            self.emit("%sreturn %s" % (t, self.atom(s[1], k)[0]))
 
     def if_stmt(self, s, k, ind):
         t = "\t" * ind
